@@ -125,7 +125,7 @@ Proof.
 Qed.
 
 (* a gene without its value, and the part of an entry mutate never touches *)
-Definition skel (e : entry) : gene := with_value (e_gene e) 0.
+Definition skel (e : entry) : gene := with_value (e_gene e) VNone.
 
 Definition same_meta (G G' : genome) : Prop :=
   allow G' = allow G /\ cb G' = cb G /\ generation G' = generation G /\ parent G' = parent G.
@@ -153,7 +153,7 @@ Proof.
 Qed.
 
 (* replacing the value of an existing entry *)
-Definition revalue (e : entry) (v : Z) : entry := mkEntry (with_value (e_gene e) v) (e_level e).
+Definition revalue (e : entry) (v : val) : entry := mkEntry (with_value (e_gene e) v) (e_level e).
 
 Lemma revalue_facts : forall t n e v,
   lookup t n = Some e ->
@@ -196,7 +196,7 @@ Qed.
 
 (* ---- mutate ---- *)
 
-Definition applied (G : genome) (n v : Z) (r : reason) (e : entry) : genome :=
+Definition applied (G : genome) (n : Z) (v : val) (r : reason) (e : entry) : genome :=
   add_log (set_tbl G (put (tbl G) (revalue e v))) (mkM n (value e) v r true).
 
 Lemma mutate_cases : forall G n v r,
@@ -254,12 +254,12 @@ Qed.
 (* 3. with allow_mutations off, values are the replay of the approved,     *)
 (*    callback-authorised log entries                                       *)
 
-Definition upd (n v : Z) (m : mrec) : Z :=
+Definition upd (n : Z) (v : val) (m : mrec) : val :=
   if m_approved m && (m_gene m =? n) then m_new m else v.
-Definition replay (l : list mrec) (n v : Z) : Z := fold_left (upd n) l v.
+Definition replay (l : list mrec) (n : Z) (v : val) : val := fold_left (upd n) l v.
 
 (* every entry on gene n records as original value the value n had then *)
-Fixpoint origs (n v : Z) (l : list mrec) : Prop :=
+Fixpoint origs (n : Z) (v : val) (l : list mrec) : Prop :=
   match l with
   | [] => True
   | m :: r => (m_gene m = n -> m_orig m = v) /\ origs n (upd n v m) r
@@ -864,6 +864,98 @@ Proof.
     rewrite Ec in Lg2. eauto.
 Qed.
 
+(* [last_approved] finds an entry exactly when the log holds an approved entry
+   on the gene, and it is the last such one — whatever values the entries
+   record (an original value None is a value, not "nothing to roll back") *)
+Lemma last_approved_complete : forall l n m,
+  In m l -> m_gene m = n -> m_approved m = true ->
+  exists m' l1 l2, last_approved l n = Some m' /\ l = l1 ++ m' :: l2 /\
+    m_gene m' = n /\ m_approved m' = true /\
+    (forall x, In x l2 -> m_gene x = n -> m_approved x = false).
+Proof.
+  induction l as [|x l IH] using rev_ind; intros n m Hin Hg Ha; [destruct Hin|].
+  destruct ((m_gene x =? n) && m_approved x) eqn:E.
+  - apply andb_true_iff in E. destruct E as (E1 & E2). apply Z.eqb_eq in E1.
+    exists x, l, []. split; [now apply last_approved_hit|]. repeat split; auto.
+    intros y [].
+  - assert (Hx : forall y, In y [x] -> m_gene y = n -> m_approved y = false).
+    { intros y [<-|[]] Hy. apply Z.eqb_eq in Hy. rewrite Hy in E. exact E. }
+    apply in_app_iff in Hin. destruct Hin as [Hin|[<-|[]]].
+    + destruct (IH n m Hin Hg Ha) as (m' & l1 & l2 & L & -> & G' & A' & N).
+      exists m', l1, (l2 ++ [x]). split; [|split; [|split; [|split]]]; auto.
+      * rewrite last_approved_skip by exact Hx. exact L.
+      * now rewrite <- app_assoc.
+      * intros y Hy. apply in_app_iff in Hy. destruct Hy as [Hy|Hy]; [now apply N | now apply Hx].
+    + rewrite (Hx x (or_introl eq_refl) Hg) in Ha. discriminate.
+Qed.
+
+(* once an approved mutation on gene n is in the log, rollback_mutation(n) is
+   never a silent no-op: with m' the LAST approved entry on n, it either
+   restores m_orig m' (authorised; logged approved) or is refused and logged
+   unapproved — for every recorded original value, None included *)
+Lemma rollback_never_silent_proof : forall G n m cur,
+  In m (mlog G) -> m_gene m = n -> m_approved m = true -> stored G n = Some cur ->
+  exists m' l1 l2,
+    mlog G = l1 ++ m' :: l2 /\ m_gene m' = n /\ m_approved m' = true /\
+    (forall x, In x l2 -> m_gene x = n -> m_approved x = false) /\
+    (approved_by G n cur (m_orig m') RRollback = true ->
+       exists G', g_rollback G n = (G', true) /\ stored G' n = Some (m_orig m') /\
+                  mlog G' = mlog G ++ [mkM n cur (m_orig m') RRollback true]) /\
+    (approved_by G n cur (m_orig m') RRollback = false ->
+       g_rollback G n = (add_log G (mkM n cur (m_orig m') RRollback false), false)).
+Proof.
+  intros G n m cur Hin Hg Ha Sc.
+  destruct (last_approved_complete _ _ _ Hin Hg Ha) as (m' & l1 & l2 & L & E & G' & A' & N).
+  exists m', l1, l2. repeat split; auto.
+  - intros A. unfold g_rollback. rewrite L.
+    destruct (mutate_cases G n (m_orig m') RRollback) as [(S & _)|[(old & S & A2 & _)|(e & L2 & A2 & E2)]].
+    + congruence.
+    + assert (old = cur) by congruence. subst old. congruence.
+    + assert (Ec : value e = cur).
+      { apply stored_lookup in Sc. destruct Sc as (e' & L' & <-). congruence. }
+      destruct (applied_facts G n (m_orig m') RRollback e L2) as (_ & Lg & Sn & _).
+      rewrite Ec in Lg. eauto.
+  - intros A. unfold g_rollback. rewrite L.
+    destruct (mutate_cases G n (m_orig m') RRollback) as [(S & _)|[(old & S & A2 & E2)|(e & L2 & A2 & _)]].
+    + congruence.
+    + assert (old = cur) by congruence. subst old. exact E2.
+    + assert (Ec : value e = cur).
+      { apply stored_lookup in Sc. destruct Sc as (e' & L' & <-). congruence. }
+      rewrite Ec in A2. congruence.
+Qed.
+
+(* get_value(name, default) is the stored value of a known, non-silenced gene
+   (None included) and the default otherwise *)
+Lemma get_value_proof : forall G n d,
+  (exists e, lookup (tbl G) n = Some e /\ e_level e <> Silenced /\ g_get_value G n d = value e) \/
+  ((lookup (tbl G) n = None \/ exists e, lookup (tbl G) n = Some e /\ e_level e = Silenced) /\
+   g_get_value G n d = d).
+Proof.
+  intros G n d. unfold g_get_value. destruct (lookup (tbl G) n) as [e|]; [|right; auto].
+  destruct (e_level e) eqn:E; cbn [is_silenced];
+    try (left; exists e; repeat split; auto; rewrite E; discriminate).
+  right. split; [right; eauto | reflexivity].
+Qed.
+
+(* identity of values is decided by val_eqb (used by the scripted callbacks
+   and the hash ids of the observations) *)
+Lemma zl_eqb_eq : forall a b, zl_eqb a b = true <-> a = b.
+Proof.
+  induction a as [|x a IH]; destruct b as [|y b]; cbn [zl_eqb]; try (split; [discriminate|congruence]).
+  - tauto.
+  - rewrite andb_true_iff, Z.eqb_eq, IH. split; [intros (-> & ->); reflexivity | intros H; inversion H; auto].
+Qed.
+
+Lemma val_eqb_eq : forall a b, val_eqb a b = true <-> a = b.
+Proof.
+  intros a b. destruct a, b; cbn [val_eqb]; try (split; [discriminate|congruence]).
+  - tauto.
+  - rewrite Bool.eqb_true_iff. split; congruence.
+  - rewrite Z.eqb_eq. split; congruence.
+  - rewrite andb_true_iff, !Z.eqb_eq. split; [intros (-> & ->); reflexivity | intros H; inversion H; auto].
+  - rewrite zl_eqb_eq. split; congruence.
+Qed.
+
 (* ====================================================================== *)
 (* 9. replicate                                                             *)
 
@@ -989,11 +1081,17 @@ Lemma apply_muts_app : forall C m1 m2,
   apply_muts C (m1 ++ m2) = apply_muts (apply_muts C m1) m2.
 Proof. intros. unfold apply_muts. apply fold_left_app. Qed.
 
-Lemma optZ_dec : forall a b : option Z, {a = b} + {a <> b}.
-Proof. decide equality. apply Z.eq_dec. Qed.
+Lemma val_eq_dec : forall a b : val, {a = b} + {a <> b}.
+Proof.
+  decide equality; try apply Z.eq_dec; try apply Bool.bool_dec.
+  apply list_eq_dec, Z.eq_dec.
+Qed.
+
+Lemma optZ_dec : forall a b : option val, {a = b} + {a <> b}.
+Proof. decide equality. apply val_eq_dec. Qed.
 
 (* a replication mutation that changed a value was authorised and logged *)
-Definition authorised_entry (a : bool) (c : option oracle) (muts : list (Z * Z)) (n : Z) (m : mrec) : Prop :=
+Definition authorised_entry (a : bool) (c : option oracle) (muts : list (Z * val)) (n : Z) (m : mrec) : Prop :=
   m_gene m = n /\ m_approved m = true /\ m_reason m = RReplication /\
   In (n, m_new m) muts /\ gate a c m = true.
 
@@ -1044,7 +1142,7 @@ Proof.
   { unfold wf in *. replace (map key (tbl (pre_muts G inh))) with (map key (tbl G)); [assumption|].
     change key with (fun e => g_name (e_gene e)). rewrite <- !(map_map e_gene g_name). now rewrite Tg. }
   repeat split; try congruence; auto.
-  rewrite Sk. unfold skel. rewrite <- !(map_map e_gene (fun g => with_value g 0)). now rewrite Tg.
+  rewrite Sk. unfold skel. rewrite <- !(map_map e_gene (fun g => with_value g VNone)). now rewrite Tg.
 Qed.
 
 Lemma child_differs_proof : forall G muts inh n, wf G ->
